@@ -202,41 +202,145 @@ func runC04(p *Program, r *Result) {
 	{
 		tb := p.TB(dec)
 		sub := dec.String()
-		// the NoIdentityMatchError return
+		// Both directions are decided on the paths of Decrypt (from the entry and from every loop
+		// header, Phis resolved along each path, repeated nil tests pruned), so that the shape of
+		// the bookkeeping — a `fileKey == nil` test after the loop, or a helper that returns the
+		// key from inside the loop and the no-match error after it — does not matter.
+		starts := []*ssa.BasicBlock{dec.Blocks[0]}
+		for _, b := range dec.Blocks {
+			for _, pr := range b.Preds {
+				if b != dec.Blocks[0] && b.Dominates(pr) {
+					starts = append(starts, b)
+					break
+				}
+			}
+		}
+		var paths []*Path
+		complete := true
+		for _, st := range starts {
+			ps, ok := p.EnumPaths(st)
+			complete = complete && ok
+			paths = append(paths, ps...)
+		}
+		unwrapCalls := callsTo(dec, "invoke (filippo.io/age.Identity).Unwrap")
+		extracts := func(c ssa.CallInstruction, wantErr bool) []ssa.Value {
+			var out []ssa.Value
+			for _, b := range dec.Blocks {
+				for _, in := range b.Instrs {
+					if ex, ok := in.(*ssa.Extract); ok && ex.Tuple == c.Value() && isErrorType(ex.Type()) == wantErr {
+						out = append(out, ex)
+					}
+				}
+			}
+			return out
+		}
+		isNoMatch := func(v ssa.Value) bool {
+			v = stripConv(v)
+			if mi, ok := v.(*ssa.MakeInterface); ok {
+				v = stripConv(mi.X)
+			}
+			return strings.HasSuffix(strings.TrimPrefix(typeString(v.Type()), "*"), pkgAge+".NoIdentityMatchError")
+		}
+		if !complete {
+			r.Unk(sub, "return:no-match", "", "too many paths through Decrypt")
+		}
+		// the NoIdentityMatchError return: never on a path on which an identity returned a nil
+		// error, unless the key it returned is known to be nil there
 		n := 0
 		for _, ret := range returnsOf(dec) {
-			t := short(tb.Term(ret.Results[1]).String())
-			if !strings.HasPrefix(t, "age.NoIdentityMatchError{") {
+			onRet, bad := 0, ""
+			for _, pa := range paths {
+				if pa.End != "return" || pa.Last != ssa.Instruction(ret) || !isNoMatch(pa.Resolve(ret.Results[1])) {
+					continue
+				}
+				onRet++
+				if !isNilConst(stripConv(pa.Resolve(ret.Results[0]))) {
+					bad = "path " + pa.String() + " returns the no-match error together with a reader"
+				}
+				for _, c := range unwrapCalls {
+					if !pathHas(pa, c.(ssa.Instruction)) {
+						continue
+					}
+					succeeded := false
+					for _, e := range extracts(c, true) {
+						if isNil, known := pa.NilOnPath(e, len(pa.Blocks)); known && isNil {
+							succeeded = true
+						}
+					}
+					if !succeeded {
+						continue
+					}
+					keyNil := false
+					for _, k := range extracts(c, false) {
+						if isNil, known := pa.NilOnPath(k, len(pa.Blocks)); known && isNil {
+							keyNil = true
+						}
+					}
+					if !keyNil {
+						bad = "path " + pa.String() + " returns the no-match error although an identity returned a nil error and its key is not known to be nil"
+					}
+				}
+			}
+			if onRet == 0 {
 				continue
 			}
+			key := "return:no-match"
+			if n > 0 {
+				key += "#" + itoa(n+1)
+			}
 			n++
-			facts := tb.FactsAt(ret.Block())
-			// fileKey == nil where fileKey is a Phi over nil and Unwrap results
-			a, ok := findFact(facts, func(a Atom) bool {
-				if a.Kind != "cmp" || a.Op != "==" || a.Y.Op != "Nil" {
-					return false
-				}
-				return a.X.Op == "Phi" && strings.Contains(a.X.String(), "invoke (filippo.io/age.Identity).Unwrap(")
-			})
-			if ok && isNilConst(ret.Results[0]) {
-				r.OK(sub, "return:no-match", r.pos(ret), "", guardWitness(p, a))
+			if bad == "" {
+				r.OK(sub, key, r.pos(ret), "on "+itoa(onRet)+" path(s): no identity had returned a key")
 			} else {
-				r.Bad(sub, "return:no-match", r.pos(ret), "the no-match error is returned on a path not guarded by fileKey == nil")
+				r.Bad(sub, key, r.pos(ret), "the no-match error is returned on a path on which an identity succeeded: "+bad)
 			}
 		}
 		if n == 0 {
 			r.Bad(sub, "return:no-match", "", "Decrypt has no return carrying *NoIdentityMatchError")
 		}
-		// conversely the header MAC (hence any reader) is computed only under fileKey != nil
+		// conversely the header MAC (hence any reader) is computed only with the key of an
+		// identity that returned a nil error, or with a key known to be non-nil
 		for i, c := range callsTo(dec, pkgAge+".headerMAC") {
-			facts := tb.FactsAt(c.Block())
-			a, ok := findFact(facts, func(a Atom) bool {
-				return a.Kind == "cmp" && a.Op == "!=" && a.Y.Op == "Nil" && a.X.Op == "Phi" && a.X.V == tb.Term(stripConv(c.Common().Args[0])).V
-			})
-			if ok {
-				r.OK(sub, callKey("headerMAC", i)+":fileKey!=nil", r.pos(c), "", guardWitness(p, a))
-			} else {
-				r.Bad(sub, callKey("headerMAC", i)+":fileKey!=nil", r.pos(c), "decryption proceeds on a path where the file key is not known to be non-nil: the no-match error is not returned in every case in which no identity produced a key")
+			on, bad := 0, ""
+			for _, pa := range paths {
+				if !pathHas(pa, c.(ssa.Instruction)) {
+					continue
+				}
+				idx := -1
+				for j, b := range pa.Blocks {
+					if b == c.Block() {
+						idx = j
+					}
+				}
+				on++
+				key := stripConv(pa.ResolveAt(c.Common().Args[0], idx))
+				ok := false
+				if isNil, known := pa.NilOnPath(key, idx); known && !isNil {
+					ok = true
+				}
+				if ex, isEx := key.(*ssa.Extract); isEx && !ok {
+					for _, uc := range unwrapCalls {
+						if ex.Tuple != uc.Value() || !pathHas(pa, uc.(ssa.Instruction)) {
+							continue
+						}
+						for _, e := range extracts(uc, true) {
+							if isNil, known := pa.NilOnPath(e, idx); known && isNil {
+								ok = true
+							}
+						}
+					}
+				}
+				if !ok {
+					bad = "path " + pa.String()
+				}
+			}
+			switch {
+			case on == 0:
+				r.Unk(sub, callKey("headerMAC", i)+":fileKey!=nil", r.pos(c), "no path of Decrypt reaches the header MAC computation")
+			case bad == "":
+				r.OK(sub, callKey("headerMAC", i)+":fileKey!=nil", r.pos(c), "on "+itoa(on)+" path(s): the key comes from an identity that returned a nil error, or is known to be non-nil")
+			default:
+				r.Bad(sub, callKey("headerMAC", i)+":fileKey!=nil", r.pos(c), "decryption proceeds on a path where the file key is not known to be non-nil: the no-match error is not returned in every case in which no identity produced a key ("+bad+")")
 			}
 		}
 		// the append to Errors
@@ -307,6 +411,12 @@ func runC04(p *Program, r *Result) {
 		r.Check(okAbort, sub, "return:fatal", "", "other Unwrap errors are returned as they are, with no reader", "no return forwards a fatal Unwrap error")
 	}
 
+	r.Rule("R04.7", "identity and stanza loops pass over an element only on the incorrect-identity sentinel, and return that sentinel when nothing matched (= R01.3): each cause in the no-match error indicates an incorrect identity", 6)
+	for _, il := range idLoops {
+		if fn := r.anchor(il.pkg, il.recv, il.fn); fn != nil {
+			checkSentinelLoop(p, r, fn, il.callee)
+		}
+	}
 	r.Rule("R04.5", "a stanza of another type yields the sentinel, so every non-matching identity is counted instead of aborting Decrypt (= R01.4)", 4)
 	checkTypeGate(p, r)
 	r.Rule("R04.6", "keys are stored and used verbatim: constructor and wrap/unwrap recipes equal the specification table", 10)
